@@ -314,6 +314,19 @@ def run(tier):
     gotc = sorted((f.path.split("::")[-1], ok) for f, form, w, sp, ok in resc)
     if gotc != [("bad_access", False), ("bad_member", False), ("good_access", True), ("good_member", True)]:
         ck.closed_fail.append("R5 control failed: fixture gives %s" % gotc)
+    # ---------------- R8 a speculative parser that answers None has consumed nothing
+    import specparse
+    ck.rule("R8.none-means-nothing-consumed", "in every parser function that restores a lexer checkpoint, no path reaches a `None` answer with tokens consumed before the "
+            "checkpoint or since the last restore (typestate: clean / marked / consumed / lost)", floor=5)
+    for f8, sp8, ok8, st8 in specparse.sites(fx, lambda g: g.file.endswith("src/parser.rs")):
+        ck.instance("R8.none-means-nothing-consumed", "%s: None answer" % f8.path, F.short_span(sp8), ok=ok8)
+        if not ok8:
+            ck.finding("R8.none-means-nothing-consumed", "R8.none-means-nothing-consumed/%s" % f8.path, F.short_span(sp8),
+                       "`%s` can answer None with tokens %s: the caller parses on as if nothing had been read - `let o: { readonly: boolean }` loses the member name "
+                       "`readonly` to the mapped-type look-ahead and is a SyntaxError, while the program without the annotation runs" % (f8.path, st8))
+    got8 = sorted((f.path.split("::")[-1], ok) for f, sp, ok, st in specparse.sites(F.load_fixture(), lambda g: g.path.startswith("specparse::")))
+    if got8 != [("try_bad", False), ("try_good", True)]:
+        ck.closed_fail.append("R8 control failed: fixture gives %s" % got8)
     # ---------------- R7 a pre-filter that transcribes a dispatcher's token set has no hole
     import prefilter
     ck.rule("R7.prefilter-covers-dispatcher", "a boolean token-set test that gates a dispatcher and lists at least nine tenths of its token kinds (and little else) lists all of them", floor=5)
